@@ -66,7 +66,8 @@ class eval_binaryop:
 class eval_between:
     props = ['C01']
     assumes = [PURE, 'COMPARABLE: non-NULL operands of one BETWEEN overload are mutually comparable (typed columns)']
-    params = {'self': node('EvalBetween', operand=Child(), lower=Child(), upper=Child()), 'context': CTX}
+    params = {'self': node('EvalBetween', operand=Child(values=[None, 0, 1, 5, -2]), lower=Child(values=[None, 0, 1, 5, -2]),
+                            upper=Child(values=[None, 0, 1, 5, -2])), 'context': CTX}
     modifies = []
 
     def _post(self, context, result):
